@@ -22,6 +22,7 @@ impl Future for YieldOnce {
             Poll::Ready(())
         } else {
             self.0 = true;
+            h3v::simquic::harness_yield();
             Poll::Pending
         }
     }
